@@ -13,6 +13,7 @@ import (
 	"strconv"
 	"syscall"
 	"time"
+	"unsafe"
 
 	"github.com/Jigsaw-Code/outline-ss-server/verifrt/simrt"
 )
@@ -364,6 +365,13 @@ func wakeAll(ts *[]*simrt.Task) {
 		simrt.Unblock(t)
 	}
 }
+
+// ioSync mirrors internal/poll's global ioSync: under -race every successful
+// socket write release-merges into it and every read acquires it.
+var ioSync byte
+
+func raceWrite() { simrt.RaceReleaseMerge(unsafe.Pointer(&ioSync)) }
+func raceRead()  { simrt.RaceAcquire(unsafe.Pointer(&ioSync)) }
 
 var _ = fmt.Sprintf
 var errRefused = syscall.ECONNREFUSED
